@@ -28,7 +28,7 @@ RULE = (
 REQUIRED = ["history.reports_succeed", "history.live_set", "history.solve", "history.rail_rep", "history.params",
             "history.phases", "history.save", "history.structure", "shown.params", "shown.limits", "shown.phases",
             "detour.extra_add_delete", "detour.replace_kind", "detour.rename_late", "detour.via_intermediate",
-            "detour.mux_input_reparented", "detour.move", "detour.scratch_until_end"]
+            "detour.mux_input_reparented", "detour.move", "detour.scratch_until_end", "detour.mux_via_temp_rail"]
 SIZES = {"quick": 110, "thorough": 900}
 ASSUMPTIONS = ["numeric cells are compared to 1e-9 relative (summation order of sibling currents depends on edge order)",
                "a detour history in which the code rejects a call is outside the quantifier (successful histories) and is "
@@ -125,6 +125,24 @@ def plan_history(rng, T, rate):
                 ops.append({"op": "analyse", "what": "solve"})
                 cur[n] = n
                 used.append("move")
+                continue
+        if how in ("replace", "other_params", "rename_late") and c["kind"] == "PMux" and rng.random() < 0.6:
+            # the mux is connected to one input through a TEMPORARY rail name of that input; the input's rail is
+            # changed to its final value afterwards (the mux must keep following the component, not the string)
+            k = rng.randrange(len(parents_now))
+            real = c["parents"][k]
+            if cur[real] == real and tmpl[real]["kind"] not in S.LOADS:
+                tr = "~r_%s" % k
+                ops.append({"op": "change_comp", "name": real, "comp": entry(tmpl[real]), "group": tmpl[real].get("group", ""), "rail": tr})
+                pn = list(parents_now)
+                pn[k] = tr
+                ops.append(add_op(c, entry(c), pn, c.get("rail", "")))
+                cur[n] = n
+                if rng.random() < 0.5:
+                    ops.append({"op": "analyse", "what": "solve"})
+                ops.append({"op": "change_comp", "name": real, "comp": entry(tmpl[real]), "group": tmpl[real].get("group", ""),
+                            "rail": tmpl[real].get("rail", "")})
+                used.append("mux_via_temp_rail")
                 continue
         if how == "extra":
             # an extra component (sometimes with a child) that is deleted again, freeing node indices
@@ -301,7 +319,7 @@ def run(ctx, case):
         if resE["tree"][0] == "ok":
             txt = resE["tree"][1]
             missing = [n for n in names if n not in txt]
-            ghosts = [t for t in ("~x", "~t_", "~i", "~s") if t in txt]
+            ghosts = [t for t in ("~x", "~t_", "~i", "~s", "~r_") if t in txt]
             ctx.check("history.live_set", not missing and not ghosts, dict(det, tree_missing=missing, ghosts=ghosts))
         # values equal to the freshly built system
         for name, keys in (("solve", ("Component", "Phase")), ("rail_rep", ("Rail", "Phase", "Component")),
